@@ -54,7 +54,8 @@ Proof. exact free_returns. Qed.
         conditions of note.c -- disconnecting == 0 in notify() and in nsync_note_free(), "no children" in
         note_notify_child(), children_changed in nsync_note_free() -- or in the semaphore wait of nsync_note_wait.
 
-        Full statement (NOT proved): in every reachable state of a contract-abiding client in which some thread is
+        Full statement (this first formulation is satisfiable by an IDLE thread, whose step is EvNone -- third statement audit; the
+        statement that counts is C09_no_stuck_strong in Props/Properties_C09c.v: an UNFINISHED thread makes a WORLD-CHANGING step): in every reachable state of a contract-abiding client in which some thread is
         inside a call and not legitimately asleep in nsync_note_wait, some thread can take a step. ---- *)
 Definition sem_waiting (w : world) (t : nat) : Prop := exists n dl d rest, stk w t = AWait n dl (S1 d) :: rest.
 Definition C09_no_stuck_full : Prop :=
